@@ -282,6 +282,8 @@ def check(ctx):
     cache_keys(ctx)
     pickle_caches(ctx)
     shortcuts(ctx)
+    from ..rules import symmetry
+    symmetry.check_side_symmetry(ctx)
     ctx.floor('A9', 15, 'raises on the instantiation slice')
     ctx.floor('A8', 15, 'cache-key components')
     ctx.floor('A20', 1, 'copied DataFrame columns')
